@@ -1920,7 +1920,8 @@ func patchCode(context *funcContext) { // {{{
 				}
 				jmp = orig[next]
 			}
-			if distance == 0 {
+			if distance == 0 && !(pc > 0 && opGetOpCode(code[pc-1]) == OP_TFORLOOP) {
+				// (the word after TFORLOOP is read by TFORLOOP itself as a distance: it must stay a patched JMP)
 				context.Code.SetOpCode(pc, OP_NOP)
 			} else {
 				context.Code.SetSbx(pc, distance)
